@@ -6,6 +6,7 @@ package main
 // memory-region walk).  Oracle failures are printed as `oracle <Cnn> FAIL ...` lines.
 
 import (
+	"sync"
 	"bufio"
 	"bytes"
 	"encoding/hex"
@@ -479,18 +480,73 @@ func memWalk(v reflect.Value, buf []byte, ignore map[[2]uintptr]bool, collect ma
 		}
 		own = append(own, r)
 	}
+	// declared default strings assigned by InitDefault are static data shared by every instance: not
+	// memory the decoder created for a transmitted value (everything else, map keys included, must be
+	// pairwise disjoint — two strings with the same data pointer too)
+	defaultsOnce.Do(collectDefaultStrings)
+	{
+		var keep []region
+		for _, r := range own {
+			if r.what == "string" && defaultStrings[[2]uintptr{r.lo, r.hi}] {
+				continue
+			}
+			keep = append(keep, r)
+		}
+		own = keep
+	}
 	sort.Slice(own, func(i, j int) bool { return own[i].lo < own[j].lo })
 	for i := 1; i < len(own); i++ {
-		if own[i].what == "string" && own[i-1].what == "string" && own[i].lo == own[i-1].lo && own[i].hi == own[i-1].hi {
-			// the same immutable string twice: declared defaults assigned by InitDefault share
-			// their static data; not memory the decoder created for a transmitted value
-			continue
-		}
 		if own[i].lo < own[i-1].hi {
 			return fmt.Sprintf("overlap: %s [%#x,%#x) and %s [%#x,%#x)", own[i-1].what, own[i-1].lo, own[i-1].hi, own[i].what, own[i].lo, own[i].hi)
 		}
 	}
 	return ""
+}
+
+var (
+	defaultsOnce   sync.Once
+	defaultStrings = map[[2]uintptr]bool{}
+)
+
+// collectDefaultStrings: the string regions a default-initialised instance of every universe struct holds
+func collectDefaultStrings() {
+	for i := range universe.Structs {
+		u := &universe.Structs[i]
+		p := reflect.New(u.Type)
+		d, ok := p.Interface().(interface{ InitDefault() })
+		if !ok {
+			continue
+		}
+		safely(func() string { d.InitDefault(); return "" })
+		var walk func(v reflect.Value, depth int)
+		walk = func(v reflect.Value, depth int) {
+			if depth > 6 {
+				return
+			}
+			switch v.Kind() {
+			case reflect.String:
+				if s := v.String(); len(s) > 0 {
+					q := uintptr(unsafe.Pointer(unsafe.StringData(s)))
+					defaultStrings[[2]uintptr{q, q + uintptr(len(s))}] = true
+				}
+			case reflect.Ptr:
+				if !v.IsNil() {
+					walk(v.Elem(), depth+1)
+				}
+			case reflect.Struct:
+				for j := 0; j < v.NumField(); j++ {
+					walk(v.Field(j), depth+1)
+				}
+			case reflect.Slice:
+				if v.Type().Elem().Kind() != reflect.Uint8 {
+					for j := 0; j < v.Len(); j++ {
+						walk(v.Index(j), depth+1)
+					}
+				}
+			}
+		}
+		walk(p.Elem(), 0)
+	}
 }
 
 // ---- resolve ----
